@@ -216,6 +216,14 @@ void harness(void)
         slots += (ix >= 2 && ix <= 7 && b > 1) ? b : 1; } }
     __CPROVER_assert(e == CO_ERR_NONE ==> (R.ObjNum <= 8 && bytes <= 8 && R.ObjNum == slots), "activated RPDO mapping: at most 8 slots and 8 bytes, one slot per dummy byte / mapped object");
     __CPROVER_assert((e == CO_ERR_NONE && G_K < R.ObjNum && R.Map[G_K & 7] != 0) ==> objidx(R.Map[G_K & 7]) >= 0, "activated RPDO mapping: every target is an existing object");
+    /* slot-accurate: walking the stored entries, a dummy of b bytes owns b empty slots, an object entry one slot with its object and its mapped length */
+    { uint32_t s = 0; int ei = 0; _Bool dm = 0;
+      for (int i = 1; i <= 8; i++) { if (H_MAPN_OK && i <= H_MAPN) { uint8_t b = (uint8_t)H_MAPENT[i] >> 3; uint16_t ix = (uint16_t)(H_MAPENT[i] >> 16);
+          if (ix >= 2 && ix <= 7) { if (G_K >= s && G_K < s + b) { dm = 1; } s += b; } else { if (G_K == s) { ei = i; } s += 1; } } }
+      if (e == CO_ERR_NONE && G_K < R.ObjNum) {
+          __CPROVER_assert(dm == (R.Map[G_K & 7] == 0), "activated RPDO mapping: slot k is empty exactly if it belongs to a dummy entry");
+          if (ei > 0) { __CPROVER_assert(R.Map[G_K & 7] != 0 && DEV(R.Map[G_K & 7]->Key) == DEV(H_MAPENT[ei & 15]) && R.Size[G_K & 7] == ((uint8_t)H_MAPENT[ei & 15] >> 3), "activated RPDO mapping: the slot of an object entry holds that object and its mapped length"); }
+      } }
     __CPROVER_assert((!allok || bytes > 8) ==> e != CO_ERR_NONE, "a stored mapping that cannot be activated is refused");
     if (e == CO_ERR_NONE && R.ObjNum == 8 && H_MAPN == 2) { __CPROVER_assert(0, "REACH:a"); }
     if (e != CO_ERR_NONE) { __CPROVER_assert(0, "REACH:b"); }
